@@ -4,7 +4,10 @@
 use crate::*;
 use quote::ToTokens;
 
+thread_local! { static BARE: std::cell::Cell<bool> = const { std::cell::Cell::new(false) }; }
+
 fn derive_names(attrs: &[syn::Attribute]) -> Vec<String> {
+    let bare = BARE.with(|b| b.get());
     let mut out = Vec::new();
     for a in attrs {
         if !a.path().is_ident("derive") {
@@ -14,6 +17,9 @@ fn derive_names(attrs: &[syn::Attribute]) -> Vec<String> {
             let segs: Vec<String> = m.path.segments.iter().map(|s| s.ident.to_string()).collect();
             if segs.len() >= 2 && segs[0] == "derive_more" {
                 out.push(segs.last().unwrap().clone());
+            } else if bare && segs.len() == 1 && find_derive(&segs[0]).is_some() {
+                // `use derive_more::Display; #[derive(Display)]` (the repository's own tests and documentation)
+                out.push(segs[0].clone());
             }
             Ok(())
         });
@@ -45,6 +51,10 @@ fn visit(items: &[syn::Item], n: &mut [usize; 4], dump: bool) {
                 }
                 continue;
             }
+            syn::Item::Fn(f) => {
+                visit_block(&f.block, n, dump);
+                continue;
+            }
             _ => continue,
         };
         let names = derive_names(attrs);
@@ -69,10 +79,22 @@ fn visit(items: &[syn::Item], n: &mut [usize; 4], dump: bool) {
     }
 }
 
+/// Items declared inside function bodies (the usual place in tests and documentation examples), at any block depth.
+fn visit_block(b: &syn::Block, n: &mut [usize; 4], dump: bool) {
+    let items: Vec<syn::Item> = b.stmts.iter().filter_map(|s| if let syn::Stmt::Item(i) = s { Some(i.clone()) } else { None }).collect();
+    visit(&items, n, dump);
+    for s in &b.stmts {
+        if let syn::Stmt::Expr(syn::Expr::Block(eb), _) = s {
+            visit_block(&eb.block, n, dump);
+        }
+    }
+}
+
 pub fn main(args: &[String]) -> i32 {
     let mut n = [0usize; 4];
     let dump = args.iter().any(|a| a == "--dump");
-    for path in args.iter().filter(|a| *a != "--dump") {
+    BARE.with(|b| b.set(args.iter().any(|a| a == "--bare")));
+    for path in args.iter().filter(|a| *a != "--dump" && *a != "--bare") {
         let Ok(text) = std::fs::read_to_string(path) else { continue };
         // function bodies may hold items too (C02 puts types inside modules only), modules are enough here
         match syn::parse_file(&text) {
